@@ -289,3 +289,40 @@ Proof.
   exists x, c, d. split; [exact Hm|]. split; [exact Hx'|]. split; [exact Hd|]. split; [exact Hread|]. split; [exact Hev|exact Hsecond].
 Qed.
 End EndToEndW.
+
+(* ---- the element conditions from plainer ones ---- *)
+Section EltOk.
+Variables (L : lang) (xo : X.opts) (wa : bool).
+Let xl := X.xlang_of L.
+
+(* an attribute: name and value NUL-free, not called xmlns, and a value that attribute-value normalisation leaves alone
+   (no TAB / LF / CR) unless the generation is canonical (then they are written as character references) *)
+Definition attr_good (a : E.attr) : Prop :=
+  cstr (E.attr_xml_name a) = E.attr_xml_name a /\ is_xmlns (XE.ev_attr a) = false /\
+  cstr (E.at_value a) = E.at_value a /\ (X.is_canonical xo = true \/ XR.attr_ws (E.at_value a) = E.at_value a).
+
+Lemma attrs_link_of attrs : wa = X.xl_has_attrs xl -> (wa = false -> attrs = []) -> Forall attr_good attrs -> attrs_link L xo wa attrs.
+Proof.
+  intros Hwa Hno HF. unfold attrs_link, attrs_part. fold xl. rewrite <- Hwa. split.
+  - destruct wa; [clear Hno|rewrite (Hno eq_refl); reflexivity].
+    induction HF as [|a r Ha _ IH]; [reflexivity|]. cbn [map]. rewrite IH. f_equal.
+    destruct Ha as (Hn & _ & Hv & Hc). destruct a as [nm v]. unfold XE.ev_attr, E.attr_xml_name, D2.attr_event, to_attr in *. cbn [E.at_name E.at_value fst snd X.at_name] in *.
+    unfold XP.spec_attr_value, X.attr_value_bytes. cbn [X.at_value]. rewrite Hv, Hv.
+    assert (Hval : (if X.is_canonical xo then v else XR.attr_ws v) = v) by (destruct Hc as [-> | Hc]; [reflexivity|destruct (X.is_canonical xo); [reflexivity|exact Hc]]).
+    f_equal; [|exact Hval]. destruct nm as [p t n ov|n]; cbn [X.aname_bytes X.ar_name]; [reflexivity|exact Hn].
+  - clear Hno. induction HF as [|a r Ha _ IH]; [reflexivity|]. cbn [map forallb]. destruct Ha as (_ & Hx & _). rewrite Hx, IH. reflexivity.
+Qed.
+
+(* without a namespace table: the name of a tag that is a row of the table (as tree_ok3 demands) or a NUL-free literal *)
+Lemma name_of_tree_ok3 tag attrs ch d : TK.tree_ok3 L d (E.NElt tag attrs ch) = true ->
+  X.tname_bytes (to_tname L (TK.tag_event tag)) = E.tag_xml_name tag.
+Proof.
+  cbn [TK.tree_ok3]. intros H. rewrite !andb_true_iff in H. destruct H as [[[_ Htag] _] _].
+  destruct tag as [p t o nm|nm]; cbn [TK.tag_event E.tag_xml_name].
+  - rewrite !andb_true_iff in Htag. destruct Htag as [_ Hlk]. unfold to_tname. unfold Spec.lookup_tag in Hlk.
+    destruct (find _ (opt_list (l_tags L))) as [r|]; [|discriminate].
+    rewrite !andb_true_iff in Hlk. destruct Hlk as [_ Hb]. apply beq_eq in Hb. cbn [X.tname_bytes X.trow_of X.tr_name]. exact Hb.
+  - apply andb_true_iff in Htag. destruct Htag as [Hok _]. cbn [to_tname X.tname_bytes].
+    apply cstr_nulfree. unfold D2.okb, Spec.str_okb in Hok. apply andb_true_iff in Hok. destruct Hok as [_ Hn]. exact Hn.
+Qed.
+End EltOk.
